@@ -252,3 +252,25 @@ case(
     canaries={"always": "c.count == old(c.count) + 1", "never": "c.count == old(c.count)"},
     gen=lambda rng: {"c": rng.randint(0, 3), "flag": rng.random() < 0.5}, build=lambda d: {"c": M.STCounter(d["c"]), "flag": d["flag"]},
 )
+
+# ---- a `modifies` parameter that is re-bound on one path (`if visited is None: visited = set()`) ---------------------------------------------
+case(
+    B + "visit", params={"name": STR, "visited": Opt(Set(STR))}, returns=INT, modifies=["visited"],
+    ensures={"some": "implies(old(visited) is not None, name in visited and all(x in visited for x in old(visited)))",
+             "none": "implies(old(visited) is None, visited is None)"},
+    canaries={"always-in": "visited is not None and name in visited", "unchanged": "visited == old(visited)"},
+    gen=lambda rng: {"name": rng.choice(["a", "b"]), "visited": rng.choice([None, [], ["a"], ["c"]])},
+    build=lambda d: {"name": d["name"], "visited": None if d["visited"] is None else set(d["visited"])},
+)
+
+# ---- fresh() in a callee's requires refers to the state at the CALL (an object the caller created itself is not fresh there) ---------------
+case(
+    B + "needs_existing", params={"n": Ref("STNode")}, returns=INT, requires=["not fresh(n)"],
+    ensures={"v": "result == n.value"}, canaries={"z": "result == 0"},
+    gen=lambda rng: {"v": rng.randint(1, 4)}, build=lambda d: {"n": M.STNode(d["v"])},
+)
+case(
+    B + "make_and_use", params={"v": INT}, returns=INT,
+    ensures={"v": "result == v"}, canaries={"z": "result == 0"},
+    gen=lambda rng: {"v": rng.randint(1, 4)},
+)
